@@ -246,9 +246,15 @@ def run_c04():
     consts = {'Methods': '{"sd", "rilling", "fixed"}', 'MaxItersSet': core.tla_value(set(range(1, K + 1))),
               'Steps': '{12, 6, 4}', 'EnergySet': '{TRUE, FALSE}', 'Dev': '{}'}
     cfg = os.path.join(ctx.work, 'sl.cfg')
-    core.write_cfg(cfg, spec='Spec', invariants=LOOP_INVS, properties=LOOP_PROPS, constants=consts)
+    core.write_cfg(cfg, spec='Spec', invariants=LOOP_INVS + ['IndInvHolds'], properties=LOOP_PROPS + ['RefinesInd', 'VariantFalls'], constants=consts)
     res = core.run_tlc(ctx, 'SiftLoop', cfg, name='SiftLoop safety+liveness', coverage=True)
     core.require_ok(res, 'Leg A SiftLoop')
+    # every iteration limit, not only 1..K: inductive invariant and ranking function on the typed control skeleton
+    core.apalache(ctx, 'SiftLoopInd', [['--init=Init', '--inv=IndInv', '--length=0'], ['--init=IndInit', '--inv=IndInv', '--length=1'],
+                                       ['--init=IndInit', '--inv=VariantDecreases', '--length=1']],
+                  'SiftLoopInd!IndInv inductive (Bounded, NeverUnconverged, RaiseOnlyAtLimit, FixedCount for EVERY max_iters >= 1) and '
+                  'Variant strictly decreasing on every step (termination within 4*(max_iters+2)+3 steps); SiftLoop refines SiftLoopInd (TLC: RefinesInd)',
+                  cinit=None)
     cov = core.coverage_counts(res['out'])
     for a in ('MTop', 'MEnvOK', 'MEnvMissing', 'MStopRule', 'MEnergyTest'):
         if not cov.get(a):
